@@ -45,6 +45,7 @@ def run(ctx, run):
     _release_all_own_device(ctx, run)
     _controls_channel_set(ctx, run)
     _one_message_per_idle_pass(ctx, run, P.need("vbi_proxyd_handle_client_sockets", UNIT))
+    _removed_client_reschedules(ctx, run, P.need("vbi_proxyd_handle_client_sockets", UNIT))
     # 'nor stops serving': a mutex taken twice or kept at a return blocks the daemon for everybody (shared with C18)
     from . import C18
     C18.lock_discipline(ctx, run)
@@ -260,6 +261,54 @@ def _strict(ctx, run, take):
                           "req->services[strict - %d] (%d elements, admissible %s): out-of-bounds read-modify-write chosen by the client"
                           % (ex.pretty(take, arg), iv, -off, n, allowed), ex.loc(take, i),
                           witness={"argument": ex.pretty(take, arg), "interval": iv, "admissible": allowed})
+
+
+def _removed_client_reschedules(ctx, run, f):
+    """A closed connection may have held the channel token.  Between the unlink of its record and the free of the
+    record the channel scheduler runs (vbi_proxyd_channel_update) on every path - the only way around it is the edge on
+    which the device is not open (p_capture == NULL).  In particular it does not depend on whether the client had any
+    services: a pure channel-control client holds the token with services == 0."""
+    run.touch(f)
+    frees = [(b, i) for b, i in flow.all_events(f) if f.exprs[i]["k"] == "call" and f.exprs[i].get("callee") == "free"]
+    n = 0
+    for fb, fi in frees:
+        # the CLOSED branch this free belongs to
+        ats = atoms.atoms_at(f, fi)
+        if not any(a.cmp_const("==", "PROXY_CLNT_s.state", ctx.prog.enum_consts.get("REQ_STATE_CLOSED")) for a in ats):
+            continue
+        n += 1
+        head = None
+        for src, lab, cond in flow.dominating_edges(f, fb):
+            if cond is not None and any(a.cmp_const("==", "PROXY_CLNT_s.state", ctx.prog.enum_consts.get("REQ_STATE_CLOSED"))
+                                         for a in atoms.atoms_of(f, cond, lab == "T", src, lab)):
+                head = [s2 for s2, l2 in f.edges(src) if l2 == lab][0]
+        if head is None:
+            continue
+        upd = {b for b, i in flow.all_events(f) if f.exprs[i]["k"] == "call" and f.exprs[i].get("callee") == "vbi_proxyd_channel_update"}
+        seen, st, reached = set(), [head], False
+        while st:
+            b = st.pop()
+            if b in seen or b in upd:
+                continue
+            seen.add(b)
+            if b == fb:
+                reached = True
+                break
+            for s2, lab in f.edges(b):
+                if lab in ("T", "F") and any(a.rel == "==" and a.R is not None and a.R.const == 0 and a.L.has("PROXY_DEV.p_capture")
+                                              for a in atoms.edge_atoms(f, b, lab)):
+                    continue
+                st.append(s2)
+        key = "RF-DOM:%s:removed-client-reschedules" % f.name
+        if reached:
+            run.violation("RF-DOM", key, "a closed connection is removed (`%s`) on a path that by-passes vbi_proxyd_channel_update() "
+                          "although the device is open: when the client held the channel token - e.g. a channel-control client "
+                          "without services - the token is never passed on and the waiting clients starve"
+                          % ex.pretty(f, fi)[:40], ex.loc(f, fi), witness={"function": f.name})
+        else:
+            run.holds("RF-DOM", key, "between the CLOSED test and `%s` every path runs the channel scheduler unless the device is closed"
+                      % ex.pretty(f, fi)[:40], ex.loc(f, fi))
+    run.floor("removals of closed connections", n, 1)
 
 
 def _one_message_per_idle_pass(ctx, run, f):
